@@ -390,6 +390,66 @@ fn header_text_part(rep: &Report) {
     }
 }
 
+/// What synthesis is handed (Models::duration / model_stream, one voice, default weights) is bit for bit what the voice holds
+/// (Model::get_parameter, itself compared with the file by the other parts) - including the sign of a zero: a generated voice
+/// whose dynamic-window means are -0.0, and the bundled voice on a stride of the label space.
+fn handover_part(rep: &Report, space: &[LabelCase]) {
+    let cfg = GenCfg { gv: true, nstate: 2, ..GenCfg::default() };
+    let mut spec = cfg.spec();
+    for st in spec.streams.iter_mut() {
+        for (_, _, pdfs) in st.model.trees.iter_mut() {
+            for p in pdfs.iter_mut() {
+                for x in p.iter_mut() {
+                    if *x == 0.0 {
+                        *x = -0.0;
+                    }
+                }
+            }
+        }
+    }
+    let neg = std::sync::Arc::new(load_voice_bytes(&crate::gen::voice::write(&spec)).expect("generated voice with negative zeros"));
+    let mut negzeros = 0u64;
+    for (name, voice, stride) in [("generated voice with -0.0 entries", neg, 97usize), ("V0", pk(0), 389)] {
+        let Ok(e) = engine_from_voices(vec![voice.clone()]) else { continue };
+        let nstate = voice.metadata.num_states;
+        for lc in space.iter().step_by(stride) {
+            let labs = vec![lc.label.clone()];
+            let models = jbonsai::model::Models::new(&labs, &e.voices, e.condition.get_interporation_weight());
+            rep.eval(1);
+            let mut bad: Option<String> = None;
+            let dur = models.duration();
+            let dp = voice.duration_model.get_parameter(2, &lc.label);
+            for s in 0..nstate {
+                rep.cmp(2);
+                if dur[s].0.to_bits() != dp.parameters[s].0.to_bits() || dur[s].1.to_bits() != dp.parameters[s].1.to_bits() {
+                    bad = Some(format!("duration state {}: handed ({:?}, {:?}), voice holds ({:?}, {:?})", s, dur[s].0, dur[s].1, dp.parameters[s].0, dp.parameters[s].1));
+                }
+            }
+            for i in 0..voice.stream_models.len().min(3) {
+                let ms = models.model_stream(i);
+                for s in 0..nstate {
+                    let p = voice.stream_models[i].stream_model.get_parameter(s + 2, &lc.label);
+                    for (k, (got, want)) in ms.stream[s].0.iter().zip(p.parameters.iter()).enumerate() {
+                        rep.cmp(2);
+                        if want.0 == 0.0 && want.0.is_sign_negative() {
+                            negzeros += 1;
+                        }
+                        if got.0.to_bits() != want.0.to_bits() || got.1.to_bits() != want.1.to_bits() {
+                            bad = Some(format!("stream {} state {} entry {}: handed ({:?}, {:?}), voice holds ({:?}, {:?})", i, s, k, got.0, got.1, want.0, want.1));
+                        }
+                    }
+                }
+            }
+            if let Some(b) = bad {
+                rep.violation("handover-bits", format!("{}: the parameters handed to synthesis are not bit-equal to the voice's: {}", name, b), json!({"voice": name, "label": lc.text}));
+                break;
+            }
+        }
+    }
+    rep.note("handover_negative_zero_entries_compared", json!(negzeros));
+    rep.guard(negzeros > 0, "no -0.0 entry reached the hand-over comparison");
+}
+
 /// all binary tree shapes with k internal nodes, leaves numbered in order 1..
 fn shapes(k: usize) -> Vec<TreeSpec> {
     fn build(k: usize) -> Vec<TreeSpec> {
@@ -631,7 +691,7 @@ fn construct_label(path: &[(String, bool)], questions: &HashMap<String, Vec<Stri
 
 pub fn run(tier: Tier) -> i32 {
     let rep = Report::new("C04", tier, "model_checking");
-    rep.set_rule("SCOPE: (a) bundled voice (also re-packed: data blocks in reverse order and/or separated by 0xFF filler): every model (duration, 3 streams x 5 states, 2 GV) x every label of the label space (corpus + one-group recombinations of the cover set + every distinct corpus value of every field group in 2-4 base labels + typed sweeps of every numeric field over 0..N + phoneme symbols from the voice's own patterns) vs an independent reader of the file + HTS wildcard matcher, bit-exact on means/variances/voicing weight and equal on tree/PDF index; (b) every distinct question of the bundled voice x the label space: crate matcher vs wildcard oracle; 8 synthetic regex-fallback questions (pairs whose pattern lists read the same once glued: {A,B} against {AB}), each object asked about the label space and about 300000 (thorough 500000) further distinct labels; (c) generated files: all binary tree shapes with <= 3 internal nodes x 4 leaf numberings (in order, reversed, permuted, tied: one PDF reached by several branches) x quoted/unquoted x question triples from a pool of real questions (incl. the regex-fallback ones) x layout deviations (states, streams, vector length, window set, order in which the state trees are listed, numbering and listing order of the internal nodes: sequential, non-contiguous ids, ids counted backwards, yes-subtree rows first; the six orders of the spectrum options, also with a bare token or an unknown key inserted at each position; stream keys MGC/F0/BAP instead of MCP/LF0/LPF; header keys in reverse order, data blocks in reverse order and/or separated by filler bytes), one question name defined with other patterns in the log-F0 tree section; plus one large file (a 300-node tree with 301 PDFs, 300 questions, one question with 300 patterns), checked against both the independent reader and the generator's spec (sentinel floats), on a stride after a Serialize/Deserialize round trip of the loaded voice; (d) metadata, options, windows, engine defaults vs the header; (e) free-text header values containing ':', '=', ',' and brackets; (f) a path overwritten with another voice of the same length and modification time while an engine loaded from it is alive, loaded again; distinct = (file, model, state, label); non-trivial = lookups through a tree with more than one leaf");
+    rep.set_rule("SCOPE: (a) bundled voice (also re-packed: data blocks in reverse order and/or separated by 0xFF filler): every model (duration, 3 streams x 5 states, 2 GV) x every label of the label space (corpus + one-group recombinations of the cover set + every distinct corpus value of every field group in 2-4 base labels + typed sweeps of every numeric field over 0..N + phoneme symbols from the voice's own patterns) vs an independent reader of the file + HTS wildcard matcher, bit-exact on means/variances/voicing weight and equal on tree/PDF index; (b) every distinct question of the bundled voice x the label space: crate matcher vs wildcard oracle; 8 synthetic regex-fallback questions (pairs whose pattern lists read the same once glued: {A,B} against {AB}), each object asked about the label space and about 300000 (thorough 500000) further distinct labels; (c) generated files: all binary tree shapes with <= 3 internal nodes x 4 leaf numberings (in order, reversed, permuted, tied: one PDF reached by several branches) x quoted/unquoted x question triples from a pool of real questions (incl. the regex-fallback ones) x layout deviations (states, streams, vector length, window set, order in which the state trees are listed, numbering and listing order of the internal nodes: sequential, non-contiguous ids, ids counted backwards, yes-subtree rows first; the six orders of the spectrum options, also with a bare token or an unknown key inserted at each position; stream keys MGC/F0/BAP instead of MCP/LF0/LPF; header keys in reverse order, data blocks in reverse order and/or separated by filler bytes), one question name defined with other patterns in the log-F0 tree section; plus one large file (a 300-node tree with 301 PDFs, 300 questions, one question with 300 patterns), checked against both the independent reader and the generator's spec (sentinel floats), on a stride after a Serialize/Deserialize round trip of the loaded voice; (d) metadata, options, windows, engine defaults vs the header; (d') the parameters handed to synthesis (Models, one voice) bit-equal to the voice's, incl. the sign of zeros (a generated voice with -0.0 entries); (e) free-text header values containing ':', '=', ',' and brackets; (f) a path overwritten with another voice of the same length and modification time while an engine loaded from it is alive, loaded again; distinct = (file, model, state, label); non-trivial = lookups through a tree with more than one leaf");
     rep.assume("labels limited to the stated label space; generated trees have at most 3 internal nodes; the label text matched by the oracle is the label's own serialisation");
     // ---------- question pool from the bundled voice ----------
     let v0b = v0_bytes();
@@ -705,6 +765,7 @@ pub fn run(tier: Tier) -> i32 {
     rep.note("questions", json!({"distinct": qlist.len(), "regex_fallback": regex_q.load(Ordering::Relaxed), "answered_yes_somewhere": q_yes.load(Ordering::Relaxed), "never_yes_in_label_space": never_yes.load(Ordering::Relaxed)}));
     reload_part(&rep);
     header_text_part(&rep);
+    handover_part(&rep, &space);
     // ---------- (b') synthetic questions that need the regex fallback ----------
     // pairs of pattern lists that read the same once glued together ({A, B} = "A or B" against {AB} = one pattern), and
     // one object of each asked about several hundred thousand distinct labels (anything remembered per label text, or per
